@@ -512,6 +512,9 @@ class Scaling(Interp):
                         self.definite.append(f"`{unparse(node)[:80]}` puts a floor under a configured/derived power: for weak signals the law no longer holds")
                     return target  # clamp(v, min=eps): measurement guard
                 if mn is None and not rest:
+                    mx_node = next((k.value for k in node.keywords if k.arg == "max"), None)
+                    if mx_node is not None and not (isinstance(mx_node, ast.Constant) and mx_node.value is None) and not target.m.only_coef():
+                        self.definite.append(f"`{unparse(node)[:80]}` caps a signal-dependent factor: for inputs weak enough to need a larger gain the law no longer holds")
                     return target
             if target.kind in ("sig", "out"):
                 return SV("clamped", target.m, tag=unparse(node))
